@@ -5,10 +5,10 @@ from metapype.model.node import Node
 from harness.hlib import nodes, part
 
 _P = part(0)
-OP1 = _P % 10 if _P < 100 else -1      # first operation pinned per process
+OP1 = _P % 10                          # first operation pinned per process
+A1PIN = (_P // 10) % 10                # 1 + first operand (which held node / for prune: 1 + strict flag), 0 = symbolic
+OP2PIN = (_P // 100) % 10 - 1          # second operation pinned (digit - 1), -1 = symbolic
 DEPTH = 3 if _P >= 1000 else 2
-OP2PIN = (_P // 100) % 10 - 1 if _P >= 1000 else -1
-HALF = (_P // 10) % 10 if _P < 100 else 0   # 1/2: the first operand ranges over even/odd positions only (splits heavy partitions)
 NOPS = 9
 DOC = '<r xmlns:p="urn:p"><p:a x="1">t<!--c--><b/></p:a><c xml:lang="en">u</c></r>'
 
@@ -35,6 +35,11 @@ class World:
         bogus = Node("bogus", id="bg")
         bogus.add_child(Node("title", id="bgt", content="x"))
         ds.add_child(bogus)
+        bad = Node("creator", id="bad")            # allowed by name, invalid on its own, with valid descendants (strict prune's business)
+        ad = Node("address", id="ad")
+        ad.add_child(Node("city", id="city", content="C"))
+        bad.add_child(ad)
+        ds.add_child(bad, 1)
         lone = Node("keyword", id="lone", content="k")
         self.roots = [ds, lone]
         self.live = {}
@@ -185,7 +190,7 @@ class World:
 
 def h_history(a1: int, f1: bool, op2: int, a2: int, f2: bool, op3: int, a3: int, f3: bool) -> str:
     """
-    pre: 0 <= a1 <= 7 and 0 <= op2 <= 8 and 0 <= a2 <= 9 and 0 <= op3 <= 8 and 0 <= a3 <= 9
+    pre: 0 <= a1 <= 7 and 0 <= op2 <= 8 and 0 <= a2 <= 11 and 0 <= op3 <= 8 and 0 <= a3 <= 11
     post: _ == ""
     """
     w = World()
@@ -194,17 +199,17 @@ def h_history(a1: int, f1: bool, op2: int, a2: int, f2: bool, op3: int, a3: int,
         return r
     op1 = OP1
     need_a = (1, 2, 3, 4, 5)
-    if HALF:
-        a1c = 2 * cint(a1, 4) + (HALF - 1)
+    if A1PIN and op1 != 7:
+        a1c = A1PIN - 1
     else:
         a1c = cint(a1, 8)
-    f1c = (HALF == 2) if (HALF and op1 == 7) else f1
+    f1c = (A1PIN == 2) if (A1PIN and op1 == 7) else f1
     r = w.step(op1, a1c if op1 in need_a else 0, f1c if op1 in (3, 4, 7) else True)
     if r:
         return r
     op2 = OP2PIN if OP2PIN >= 0 else cint(op2, NOPS)
-    r = w.step(op2, cint(a2, 10) if op2 in need_a else 0, f2 if op2 in (3, 4, 7) else True)
+    r = w.step(op2, cint(a2, 12) if op2 in need_a else 0, f2 if op2 in (3, 4, 7) else True)
     if r or DEPTH < 3:
         return r
     op3 = cint(op3, NOPS)
-    return w.step(op3, cint(a3, 10) if op3 in need_a else 0, f3 if op3 in (3, 4, 7) else True)
+    return w.step(op3, cint(a3, 12) if op3 in need_a else 0, f3 if op3 in (3, 4, 7) else True)
